@@ -2,6 +2,7 @@ use crate::layer::LayerType;
 use crate::pixel::{Pixels, RawPixels};
 use crate::reader::AseReader;
 use crate::tilemap::TilemapData;
+use crate::tileset::TilesetsById;
 use crate::user_data::UserData;
 use crate::{
     layer::LayersData, AsepriteFile, AsepriteParseError, ColorPalette, PixelFormat, Result,
@@ -182,6 +183,7 @@ impl RawCel<RawPixels> {
         self,
         cel_id: CelId,
         layers: &LayersData,
+        tilesets: &TilesetsById,
         pixel_format: &PixelFormat,
         palette: Option<Arc<ColorPalette>>,
         validate_ref: &F,
@@ -205,8 +207,10 @@ impl RawCel<RawPixels> {
                 CelContent::Linked(other_frame)
             }
             CelContent::Tilemap(tilemap) => {
-                if let LayerType::Tilemap(_) = layers[cel_id.layer as u32].layer_type {
-                    // all good
+                if let LayerType::Tilemap(tileset_id) = layers[cel_id.layer as u32].layer_type {
+                    // The renderer slices the tileset's pixels by tile id.
+                    let tile_count = tilesets.get(tileset_id).map_or(0, |t| t.tile_count());
+                    tilemap.validate_tile_ids(tile_count)?;
                 } else {
                     return Err(AsepriteParseError::InvalidInput(format!(
                         "Invalid cel. Tilemap Cel ({}) outside of tilemap layer.",
@@ -228,6 +232,7 @@ impl CelsData<RawPixels> {
     pub(crate) fn validate(
         self,
         layers: &LayersData,
+        tilesets: &TilesetsById,
         pixel_format: &PixelFormat,
         palette: Option<Arc<ColorPalette>>,
     ) -> Result<CelsData<Pixels>> {
@@ -280,6 +285,7 @@ impl CelsData<RawPixels> {
                 let cel = cel.validate(
                     cel_id,
                     layers,
+                    tilesets,
                     pixel_format,
                     palette.clone(),
                     &validate_ref,
